@@ -50,6 +50,7 @@ pub fn scenarios(prop: &str, tier: Tier) -> Vec<ScenarioDef> {
         "C13" => crate::c13::scenarios(tier),
         "C14" => crate::c14::scenarios(tier),
         "C19" => crate::c19::scenarios(tier),
+        "C17" => crate::c17::scenarios(tier),
         "C18" => crate::c18::scenarios(tier),
         _ => Vec::new(),
     }
